@@ -2458,8 +2458,11 @@ class FileSet:
             )
 
         if index_of_sub_directory is None:
-            # There is no sub directory
+            # There is no sub directory (forget the one of a previous path)
             self._base_dir = directory
+            self._sub_dir = ""
+            self._sub_dir_chunks = []
+            self._sub_dir_time_resolution = None
         else:
             self._base_dir = directory[:index_of_sub_directory]
             self._sub_dir = directory[index_of_sub_directory:]
